@@ -1956,38 +1956,12 @@ func rulePlumbing(c *Ctx, rule string) {
 			c.Check(ok, rule, fmt.Sprintf("writer constructor honours NoRunningStatus=%v, chunk type MTrk", noRS), p.Pos(newW.Pos()), "running-status stage present iff compression is on; chunk type MTrk", why)
 		}
 	}
-	// (c) reader: decoded delta -> deltatime field -> Track.Add / Close arguments
-	rf := p.Func("smf", "ReadFrom")
-	dec := findVlqDecoder(p)
-	okStore, okUse := false, 0
-	if rf != nil && dec != nil {
-		for _, f := range p.Reachable(rf) {
-			for _, b := range f.Blocks {
-				for _, in := range b.Instrs {
-					switch x := in.(type) {
-					case *ssa.Store:
-						if fv := fieldVar(x.Addr); p.isRoleField(fv, "smf.reader", "deltatime") {
-							// value must be the first result of the VLQ decoder (or 0 reset)
-							if ex, ok := x.Val.(*ssa.Extract); ok && ex.Index == 0 {
-								if call, ok := ex.Tuple.(*ssa.Call); ok && call.Common().StaticCallee() == dec {
-									okStore = true
-								}
-							}
-						}
-					case *ssa.Call:
-						if cal := x.Common().StaticCallee(); cal != nil && (cal.Name() == "Add" || cal.Name() == "Close") && namedTypeName(cal.Signature.Recv().Type()) == "Track" && f.Name() != "ConvertToSMF1" {
-							if l, ok := x.Common().Args[1].(*ssa.UnOp); ok {
-								if fv := fieldVar(l.X); p.isRoleField(fv, "smf.reader", "deltatime") {
-									okUse++
-								}
-							}
-						}
-					}
-				}
-			}
-		}
-	}
-	c.Check(okStore && okUse >= 2, rule, "reader: decoded delta reaches Track.Add and Track.Close", "-", "deltatime <- VLQ decoder result; Add(deltatime, msg) and Close(deltatime) in the track collector", fmt.Sprintf("the decoded delta time does not flow unchanged into the collected events (stored from the VLQ decoder: %v, used by Add/Close: %d)", okStore, okUse))
+	// (c) reader: every decoded delta reaches the event it belongs to — decided by the whole-file read simulation (two
+	// tracks with alien chunks around them; deltas 0, 16 on the end-of-track, 2, 5, 0): each event of the returned file
+	// carries the delta the file gives it, the closing event included. (Until round 7 a flow rule: "the delta field is
+	// stored from the VLQ decoder's result and loaded as the argument of Track.Add / Close"; it depended on the reader
+	// keeping the delta in a field of its own.)
+	runReadFromSim(c, rule, "")
 	// (d) Track.Add: first message gets the delta, the following ones 0
 	if add := p.MethodOf(types.NewPointer(trackT), "Add"); add != nil {
 		c.Fn(FuncName(add))
